@@ -203,7 +203,7 @@ CHECKS = {
         '(alignment, length); the probability-weighted mean is scale-invariant in the probabilities, reproduces a constant, and lies between '
         'the extremes; the max-probability rule returns exactly the indices attaining the maximum (non-empty); Markov-chain unique-sample '
         'weights are the multiplicities (sorted distinct values, counts exact, summing to the length). Projection over the reals: the '
-        'equal-area radius is sqrt2 sin(theta/2) and the equal-angle radius tan(theta/2) in the polar angle of the unit vector, azimuth is '
+        'equal-area radius is 2 sin(theta/2) and the equal-angle radius tan(theta/2) in the polar angle of the unit vector, azimuth is '
         'preserved, lower-hemisphere vectors are shown, upper-hemisphere vectors are hidden or replaced by their antipode. Tie: MTData '
         '(indexing, mean, max-probability, unique weights) and equal_area / equal_angle with every option combination vs the executable model.',
    note=TB + 'Tensor columns reach the uniqueness model as order-isomorphic ranks; the projection_axis option is not modelled; drawing itself (matplotlib) is outside the model.',
